@@ -1,1 +1,155 @@
-"""operation handlers (registered on import)"""
+"""File-writing operations (C20) and the harness's own reader of what is on disk."""
+from __future__ import annotations
+
+import gzip
+import hashlib
+import json
+import os
+from typing import Any, Dict, List, Optional
+
+from . import simenv
+from .canon import canon_value
+from .session import State, _abs, _rel, op
+
+
+def read_any(env: simenv.SimEnv, path: str, with_doc: bool = True) -> Dict[str, Any]:
+    """What the bytes of ``path`` really are (bypasses the fault layer)."""
+    out: Dict[str, Any] = {"exists": env.real_exists(path)}
+    if not out["exists"]:
+        return out
+    with env.real_open(path, "rb") as fh:
+        raw = fh.read()
+    out["size"] = len(raw)
+    out["sha"] = hashlib.sha256(raw).hexdigest()[:16]
+    out["is_gzip"] = raw[:2] == b"\x1f\x8b"
+    data = raw
+    if out["is_gzip"]:
+        try:
+            data = gzip.decompress(raw)
+        except Exception as exc:  # noqa: BLE001
+            out["valid"] = False
+            out["error"] = type(exc).__name__
+            return out
+    try:
+        doc = json.loads(data)
+        out["valid"] = isinstance(doc, dict)
+        if with_doc:
+            out["doc"] = doc
+        out["indented"] = b"\n" in data[:200]
+    except Exception as exc:  # noqa: BLE001
+        out["valid"] = False
+        out["error"] = type(exc).__name__
+    return out
+
+
+def snapshot(env: simenv.SimEnv, root: str) -> Dict[str, str]:
+    snap: Dict[str, str] = {}
+    for dirpath, _dirs, files in os.walk(root):
+        for fn in files:
+            p = os.path.join(dirpath, fn)
+            try:
+                with env.real_open(p, "rb") as fh:
+                    snap[os.path.relpath(p, root)] = hashlib.sha256(fh.read()).hexdigest()[:16]
+            except OSError:
+                snap[os.path.relpath(p, root)] = "unreadable"
+    return snap
+
+
+def changed(env: simenv.SimEnv, root: str, before: Dict[str, str], with_doc: bool = True) -> Dict[str, Any]:
+    after = snapshot(env, root)
+    out: Dict[str, Any] = {}
+    for rel in sorted(after):
+        if before.get(rel) != after[rel] and (rel.endswith(".json") or rel.endswith(".gz")):
+            out[rel] = read_any(env, os.path.join(root, rel), with_doc)
+    removed = sorted(set(before) - set(after))
+    return {"files": out, "removed": removed}
+
+
+def tool_read(path: str) -> Dict[str, Any]:
+    """Read a file with the reader the tool itself offers."""
+    from hta.common.trace_file import read_trace
+    try:
+        doc = read_trace(path)
+        return {"ok": True, "doc_sha": hashlib.sha256(json.dumps(doc, sort_keys=True).encode()).hexdigest()[:16]}
+    except Exception as exc:  # noqa: BLE001
+        if type(exc).__name__ in ("SimDeadlock", "SimHarnessError", "SessionKilled"):
+            raise
+        return {"ok": False, "exc": type(exc).__name__}
+
+
+def _annotate_tool_reads(state: State, ch: Dict[str, Any]) -> None:
+    for rel, info in ch["files"].items():
+        info["tool_read"] = tool_read(os.path.join(state.world_dir, rel))
+        if info.get("valid") and "doc" in info:
+            info["harness_doc_sha"] = hashlib.sha256(json.dumps(info["doc"], sort_keys=True).encode()).hexdigest()[:16]
+
+
+@op("gen_counters")
+def op_gen_counters(state: State, a: Dict[str, Any], env: simenv.SimEnv) -> Any:
+    from hta.trace_analysis import TimeSeriesTypes
+    before = snapshot(env, state.world_dir)
+    ts = None
+    sel = a.get("series")
+    if sel == "queue":
+        ts = TimeSeriesTypes.QUEUE_LENGTH
+    elif sel == "bw":
+        ts = TimeSeriesTypes.MEMCPY_BANDWIDTH
+    elif sel == "both":
+        ts = TimeSeriesTypes.QUEUE_LENGTH | TimeSeriesTypes.MEMCPY_BANDWIDTH
+    kwargs: Dict[str, Any] = {}
+    if a.get("suffix") is not None:
+        kwargs["output_suffix"] = a["suffix"]
+    try:
+        state.ta.generate_trace_with_counters(time_series=ts, ranks=a.get("ranks"), **kwargs)
+        err = None
+    except simenv.SessionKilled:
+        raise
+    except Exception as exc:  # noqa: BLE001
+        if type(exc).__name__ in ("SimDeadlock", "SimHarnessError"):
+            raise
+        err = type(exc).__name__
+    ch = changed(env, state.world_dir, before)
+    if err is None:
+        _annotate_tool_reads(state, ch)
+    ch["raised"] = err
+    ch["min_ts"] = canon_value(state.trace.min_ts)
+    return ch
+
+
+@op("write_trace")
+def op_write_trace(state: State, a: Dict[str, Any], env: simenv.SimEnv) -> Any:
+    from hta.common.trace_file import read_trace, write_trace
+    before = snapshot(env, state.world_dir)
+    data = read_trace(_abs(state, a["src"]))
+    write_trace(data, _abs(state, a["dst"]))
+    ch = changed(env, state.world_dir, before)
+    _annotate_tool_reads(state, ch)
+    return ch
+
+
+@op("update_rank")
+def op_update_rank(state: State, a: Dict[str, Any], env: simenv.SimEnv) -> Any:
+    from hta.common.trace_file import update_trace_rank
+    before = snapshot(env, state.world_dir)
+    update_trace_rank(_abs(state, a["path"]), int(a["rank"]))
+    ch = changed(env, state.world_dir, before)
+    _annotate_tool_reads(state, ch)
+    return ch
+
+
+@op("read_trace")
+def op_read_trace(state: State, a: Dict[str, Any], env: simenv.SimEnv) -> Any:
+    from hta.common.trace_file import read_trace
+    doc = read_trace(_abs(state, a["path"]))
+    return {"doc": doc}
+
+
+@op("disk")
+def op_disk(state: State, a: Dict[str, Any], env: simenv.SimEnv) -> Any:
+    """What is on disk now (used after kills and faults)."""
+    out: Dict[str, Any] = {}
+    for rel in a.get("paths") or sorted(snapshot(env, state.world_dir)):
+        p = os.path.join(state.world_dir, rel)
+        if rel.endswith(".json") or rel.endswith(".gz"):
+            out[rel] = read_any(env, p, with_doc=bool(a.get("docs", True)))
+    return {"files": out}
